@@ -524,7 +524,7 @@ def stage_fixtures(ctx, pq, w):
                 ctx.count("fixture.leaf_skipped", "%s:%s (v1 and v2 pages in one chunk)" % (fn, ".".join(rec["path"])))
                 continue
             else:
-                model = m_result(pq.call("run_v1", ro, eo, n, mp))
+                model = m_result(pq.call("run_v1_py", ro, eo, n, mp))
                 guard = [bool(int(x)) for x in pq.call("split_guard", ro, eo, mp)]
             case = {**case0, "rg": rec["rg"], "leaf": ".".join(rec["path"]), "pages": len(mp), "entries": len(ents), "rows": n}
             ctx.case(case)
@@ -754,7 +754,11 @@ def stage_direct(ctx, pq, w):
                                m_rows_back(m[1]) if m[0] == "ok" else repr(m), want_rows)
         # property oracle on the real function
         ok = res.get("exc") is None and not res.get("oob_written") and res["arr"] == want_rows
-        if not ok:
+        if classes:
+            # a page that starts inside a row handed to the bare function: outside its (proved exact) guard; read_col does
+            # not do that any more (fix 23664ac), so this is no failure of the property - it is counted
+            ctx.count("seq.function_outside_guard", "wrong rows or fault" if not ok else "rows")
+        elif not ok:
             cls = {"component": "_assemble_objects", "page_version": v, "split": ",".join(classes) or "good", "level": "direct"}
             ctx.fail(cls, {**case, "replay": {"kind": "seq", "task": task, "want": want_rows}},
                      "direct call sequence: got %r (exc=%r, out-of-bounds writes at %r), rows are %r" % (
@@ -795,7 +799,9 @@ def expected_cells(col, rows):
 def file_case_classes(case):
     """known-bad regions touched by a file case (computed from the page structure, not from the model)"""
     classes = set()
-    if FX:
+    if True:
+        # since the read_col fix (leading continuation appended in Python) every cut must read correctly from a file;
+        # the two .pyx defects remain reachable only by calling _assemble_objects directly (stage A)
         return []
     for rg in case["rgs"]:
         for c in case["cols"]:
@@ -835,7 +841,7 @@ def model_file(pq, case, written):
                 pages = folded
             mp = [m_page(r, d, v, vt) for (r, d, v) in pages]
             if leaf["version"] == 1:
-                cmds.append(("run_v1_fx" if FX else "run_v1", ro_call, leaf["elem_opt"], n, mp))
+                cmds.append(("run_v1_py", ro_call, leaf["elem_opt"], n, mp))
             else:
                 # read_data_page_v2's branch for this leaf's pages (model of the if/elif chain): record assembly?
                 br = pq.call("v2_branch", False, 1, 8 if leaf["dictionary"] else 0)
@@ -956,7 +962,7 @@ def check_file_case(ctx, pq, w, case, path, conf_budget):
         ctx.count("file.model_predicts_fault", json.dumps(sorted(str(v) for v in mres.values() if isinstance(v, dict))[:1]))
     if not classes and pred is not None:
         want_idx = impl_cells_idx(case, want, vts)
-        ctx.correspondence("model on a good split = rows (instance of C15_pages_partial, file level)", case, pred, want_idx)
+        ctx.correspondence("model on every cut = rows (instance of C15_pages_full, file level)", case, pred, want_idx)
     # the property itself
     if got != want:
         # known-bad splits exist in v1 chunks only: a file that touches one is classified under v1
